@@ -418,7 +418,40 @@ func c17Charset(c *Ctx, p *Prog) {
 			}
 		}
 	}
-	c.Check(okP["POSIX"] && okP["C"], "C17-R4", "getCharset:POSIX-and-C", p.pos(fn.Pos()), fmt.Sprintf("US-ASCII returned for locales %v", sortedKeys(okP)))
+	// "C" and "POSIX" are whole locale names: C.UTF-8 is a UTF-8 locale.  The comparison must be
+	// made on the value of the environment variable itself, not on a part cut out of it.
+	whole := true
+	eachInstr(fn, func(in ssa.Instruction) {
+		bo, isBO := in.(*ssa.BinOp)
+		if !isBO || bo.Op != token.EQL {
+			return
+		}
+		if s2, isS2 := constString(bo.Y); !isS2 || (s2 != "C" && s2 != "POSIX") {
+			return
+		}
+		var fromEnv func(v ssa.Value, d int) bool
+		fromEnv = func(v ssa.Value, d int) bool {
+			if d > 4 {
+				return false
+			}
+			switch x := v.(type) {
+			case *ssa.Call:
+				return calleeName(&x.Call) == "os.Getenv"
+			case *ssa.Phi:
+				for _, e := range x.Edges {
+					if !fromEnv(e, d+1) {
+						return false
+					}
+				}
+				return true
+			}
+			return false
+		}
+		if !fromEnv(bo.X, 0) {
+			whole = false
+		}
+	})
+	c.Check(okP["POSIX"] && okP["C"] && whole, "C17-R4", "getCharset:POSIX-and-C", p.pos(fn.Pos()), fmt.Sprintf("US-ASCII returned for locales %v; compared as whole locale names: %v", sortedKeys(okP), whole))
 	// UTF-8 default when no codeset
 	okU := false
 	for _, r := range returnsOf(fn) {
